@@ -82,8 +82,10 @@ ASSUMPTIONS = [
     'the one combination excluded from the progress clauses: a BRIDGED request whose own reply passes the filter of '
     'the outstanding Send Message (a Send Message to LUN 0 of the target sent through a bridge) - nothing in the '
     'frame tells it from the bridge\'s response; every other request, command 34h included, is judged',
-    'header fields are in range (netFn < 64, LUN < 4, addresses and command < 256); single-threaded use (C14 '
-    'covers sharing)',
+    'header fields are in range (netFn < 64, LUN < 4, addresses and command < 256); the loop models are '
+    'sequential: what threads can do to the sequence counter is explored on the real code (threads stream, with '
+    'C14\'s scheduler and fake BMC) and proved in the interleaving model of C14 (Props.C14.rq_seq_distinct_on_wire, '
+    'for the source with fixes/C04-2.diff; racy_seq_asShipped_counterexample for the pinned source)',
 ]
 TRUSTED = ['harness/translate/loops04.py (syntax-directed Python-AST -> LoopAst printer; constant readers)',
            'harness/sim/transport04.py']
@@ -865,6 +867,62 @@ def gen_field_sweep(ctx, judge):
                 ctx.count('gen:%s-field-sweep' % tr)
 
 
+# =============================================================== schedules (the property's quantifier names them)
+THREAD_CFGS = [([(1, 1), (1, 1)], 0, 0), ([(1, 1)], 1, 0), ([(2, 1), (1, 1)], 0, 1)]
+
+
+def _threads_judge(cfg, out):
+    """-> [(signature, what, expected, observed)] for one schedule of real threads sharing one Rmcp object"""
+    from . import c14
+    res = []
+    dup = c14._dup_rq(out)
+    if dup:
+        res.append((SIG_SEQ % 'rmcp' + ':threads',
+                    'two consecutive requests - of threads %s and %s - carry the same sequence number on the wire '
+                    '(the counter is advanced and read outside the transaction lock)' % (dup[0][0], dup[0][2]),
+                    'every transmitted request carries a sequence number different from the one before it',
+                    'wire (T:thread:datagram:session seq:rq_seq:cmd) %s' % ' '.join(w for w in out.wire if w[0] == 'T')))
+    bad = c14._wrong_replies(out)
+    if bad:
+        res.append((SIG_ATTR % 'rmcp' + ':late-reply:threads',
+                    'the late reply to an earlier request is returned as the answer: ' + ', '.join(
+                        'thread %d sent datagram %s and was handed the reply to datagram %d' % b for b in bad),
+                    'the reply to its own request, or an error', ' '.join(c14._res_tokens(out.results))))
+    return res
+
+
+def gen_rmcp_threads(ctx, budget_s):
+    """Two or three real threads (the second one can be the interface's own keep-alive) on ONE real Rmcp under the
+    deterministic scheduler of harness/sim/sched.py, every schedule with <= 2 preemptions at shared-access
+    granularity (every load / store of next_sequence_number is a scheduling point) - "A increments, B increments, B
+    reads, A reads" among them - together with one late reply (the reply to one datagram arrives only after the
+    next datagram was sent)."""
+    import time
+    from . import c14
+    from ..sim import sched as S
+    t_end = time.time() + budget_s
+    seen = set()
+    for i, (workers, ka, late) in enumerate(THREAD_CFGS):
+        cfg = c14._cfg(workers, ka, 'none', 0x50 + i, [4, 63, 0][i % 3], 'access')
+        cfg['late'] = late
+
+        def ex(prefix, cfg=cfg):
+            out = c14.execute(cfg, S.ReplayPolicy(prefix), record=True)
+            ctx.case(('threads', repr(sorted(cfg.items())), tuple(out.choices)), nontrivial=len(out.choices) > 0)
+            ctx.count('gen:rmcp-threads')
+            if out.status != 'complete':
+                ctx.disagree('scheduler (C04 threads stream)', {'cfg': cfg}, 'complete', out.status)
+                return None
+            for sig, what, exp, obs in _threads_judge(cfg, out):
+                if sig not in seen:
+                    seen.add(sig)
+                    ctx.violate(sig, what, {'transport': 'rmcp-threads', 'cfg': cfg, 'choices': S.rle(out.choices)},
+                                expected=exp, observed=obs)
+            return out.record
+        S.explore(ex, 2 if ctx.tier == 'quick' else 3, limit=3000 if ctx.tier == 'quick' else 40000,
+                  should_stop=lambda: time.time() > t_end or len(seen) >= 2)
+
+
 # =============================================================== which variant does the tree implement?
 # the witnesses of the counter-example theorems of Props/C04.lean, run on the real code
 
@@ -965,6 +1023,7 @@ def run(ctx):
     gen_rmcp_bridging(ctx, judge, ctx.rng('c04-bridging'))
     for tr in ('ipmbdev', 'aardvark'):
         gen_i2c_probes(ctx, judge, tr)
+    gen_rmcp_threads(ctx, 6 if quick else 90)
     gen_field_sweep(ctx, judge)
     gen_rmcp_exhaustive(ctx, judge, 4 if quick else 5, (0, 1, 2, 3), BASE9)
     for q in ((1, 0), (0, 1), (1, 1)):
@@ -1023,6 +1082,21 @@ def search(ctx):
 
 def replay(ctx, v):
     case = v['case']
+    if case.get('transport') == 'rmcp-threads':
+        from . import c14
+        from ..sim import sched as S
+        cfg = case['cfg']
+        out = c14.execute(cfg, S.ReplayPolicy(S.unrle(case['choices'])))
+        print('real threads on one Rmcp object: %s; the reply to datagram %s is delivered late' % (cfg, cfg.get('late')))
+        print('  wire log (T:tid:serial:session_seq:rq_seq:cmd / R:tid:serial): ' + ' '.join(out.wire))
+        print('  results (tid:sent:got): ' + ' '.join(c14._res_tokens(out.results)))
+        print('  accesses (tid:event): ' + ' '.join(out.trace))
+        bad = False
+        for sig, what, exp, obs in _threads_judge(cfg, out):
+            print('  VIOLATES %s: %s' % (sig, what))
+            if sig == v.get('signature'):
+                bad = True
+        return bad
     drv = ctx.driver('drv_c04')
     judge = Judge(ctx, drv, probe_variant())
     res = run_real(case)
